@@ -16,7 +16,7 @@ from .cfg import cfg_of, header_expr
 from .facts import canon
 from .pyfront import clone, FUNC, eval_order, match, same
 
-MAX_NODES = 60
+MAX_NODES = 200
 
 
 class Event:
